@@ -25,6 +25,19 @@ ADDED = {
  "C13_5": "back-pressure burst in `c08_hops` (messages parked behind a busy connection with SENDBUF in use), `c08_hops` added to the C13 plan",
  "C16_5": "long pipelined request trains (more than the server's read buffer) in `c16_http_srv` (before it the catch was 2 runs in 4000)",
  "C20_5": "`c20_http`: two connects outstanding on one HTTP client, a connect may not time out",
+ "C01_6": "scenario `c01_fanout` (one send fanned out to several receivers, some of them waiting when it is sent, each scribbling over its copy)",
+ "C01_7": "scenario `c01_fanout` (the sender as websocket client to several receivers)",
+ "C04_7": "`c04_dead`: connection lost after a send that nobody waits for, then NNG_ESTATE checks after completed exchanges (a neighbouring genuine defect was found and repaired first)",
+ "C05_6": "`c05_seq` resizes receive buffers with whatever they hold",
+ "C07_6": "scenario `c07_manyctx` (150-260 surveys whose deadlines fall together)",
+ "C07_7": "scenario `c07_dblsend` (two threads answer one survey on one respondent socket/context)",
+ "C08_6": "failed attempts (non-blocking, short time-out) before the real send in the back-pressure burst of `c08_hops`",
+ "C10_6": "scenario `c10_epchurn` (other threads create and start endpoints while the socket closes) -- which first found two genuine defects on the unchanged tree",
+ "C10_7": "scenario `c10_epchurn` (other threads close endpoints one by one while the socket closes)",
+ "C12_6": "scenario `c12_noise` (the C02 check caught it as it stood, through `c02_many`)",
+ "C12_7": "scenario `c12_tworep` (two repliers, the connection of the timed retransmission is dropped)",
+ "C14_6": "`Bounded` guard on the socket close of `c14_events` (the hang was *inconclusive* in 7 % of the runs, one *deadlock* verdict)",
+ "C15_7": "scenario `c15_reqqueue` (requests queued before the connection exists, raw peer that never reads)",
  "C10_5": "extra peers arriving through a slow ADD_POST callback in `c10_close` (connections parked between negotiation and accept)",
  "C14_4": "scenario `c14_subset` (subsets of the pipe events registered, registrations dropped while a pipe is up)",
  "C14_5": "scenario `c14_churn` (listener closed and replaced while dialers redial)",
